@@ -1,4 +1,5 @@
 import H2V.Lemmas.ConnResetPPeer
+import H2V.Lemmas.ConnResetPDrop
 /-
   C17 — Resets: exactly one RST_STREAM with the right code; peer errors surface intact.
   PROPERTY THEOREMS ONLY (proofs: H2V/Lemmas/ConnResetP*.lean; what is partial and why:
@@ -72,6 +73,102 @@ theorem error_cause_is_kept (s : Streams) (hs : s.store.slab = []) (ops ops' : L
 example : ((run {} [.sendRequest false [] true none, .pollComplete 10 {} {} "c", .recvReset 1 0xdeadbeef]).store.get? 0).map
     (·.state.inner) = some (.closed (.error (.reset 1 0xdeadbeef .remote))) := by decide
 
+/-- **`send_reset(reason)`: exactly one RST_STREAM, with the caller's code, after the HEADERS if those were
+    not sent yet; the stream's unsent frames are discarded; no other stream's queue is disturbed.**
+    State `s` with all keys below `nextKey` (true in every reachable state, `C08.keys_below_next`), a
+    slab entry `st` at `k` that is not reset yet and not (closed with nothing unsent).  After
+    `StreamRef::send_reset(reason)`:
+    (1) the entry is still in the slab, closed with `Reset(id, reason, User)`, and its `pending_send` is
+        exactly `[RST_STREAM(reason)]` — `[HEADERS, RST_STREAM(reason)]` when the stream was still waiting
+        for a concurrency slot (`is_pending_open`: its HEADERS had not been sent; everything behind
+        them is dropped);
+    (2) every other entry present before and after kept key, id, state and `pending_send`;
+    (3) every other entry that had something queued is still there, untouched. -/
+theorem send_reset_effect (s : Streams) (k : Nat) (reason : Reason) (st : Stream)
+    (hkb : KeysBelow s.store) (hg : s.store.get? k = some st) (hr : st.state.isReset = false)
+    (hne : (st.state.isClosed && (st.pendingSend.isEmpty && st.bufferedSendData == 0)) = false) :
+    (∃ st', (s.refSendReset k reason).store.get? k = some st' ∧ st'.id = st.id ∧
+        st'.state = ⟨.closed (.error (.reset st.id reason .user))⟩ ∧
+        st'.pendingSend = (if st.isPendingOpen then st.pendingSend.head?.toList else []) ++ [.reset reason]) ∧
+    (∀ k' st'', k' ≠ k → k' < s.store.nextKey → (s.refSendReset k reason).store.get? k' = some st'' →
+        ∃ st0, s.store.get? k' = some st0 ∧ CoreEq st0 st'') ∧
+    (∀ k' st0, k' ≠ k → s.store.get? k' = some st0 → st0.pendingSend ≠ [] →
+        ∃ st'', (s.refSendReset k reason).store.get? k' = some st'' ∧ CoreEq st0 st'') :=
+  refSendReset_spec s k reason st hkb hg hr hne
+
+/-- non-vacuity, and the two shapes of the queue: a request with a body chunk queued behind the
+    concurrency limit (`[HEADERS, RST]`, the DATA is gone) and one whose HEADERS were written (`[RST]`) -/
+example :
+    ((run {} [.sendRequest false [] false none, .refSendData 0 10 false, .refSendReset 0 8]).store.get? 0).map (·.pendingSend)
+      = some [.headers false [], .reset 8] ∧
+    ((run {} [.sendRequest false [] false none, .pollComplete 10 {} {} "c", .refSendData 0 10 false,
+              .refSendReset 0 0xfffffffe]).store.get? 0).map (·.pendingSend) = some [.reset 0xfffffffe] := by
+  decide
+
+/-- **Resetting a stream that had already closed cleanly sends nothing**: closed by END_STREAM both
+    ways, nothing unsent — the reason is recorded, no RST_STREAM is queued. -/
+theorem reset_after_clean_close_sends_nothing (s : Streams) (k : Nat) (reason : Reason) (st : Stream)
+    (hkb : KeysBelow s.store) (hg : s.store.get? k = some st) (hr : st.state.isReset = false)
+    (hc : st.state.isClosed = true) (hq : st.pendingSend = []) (hb : st.bufferedSendData = 0) :
+    ∀ st', (s.refSendReset k reason).store.get? k = some st' →
+      st'.pendingSend = [] ∧ st'.state = ⟨.closed (.error (.reset st.id reason .user))⟩ :=
+  refSendReset_closed_clean s k reason st hkb hg hr hc hq hb
+
+/-- **Dropping the last handle of an unfinished stream schedules the implicit reset: CANCEL, or NO_ERROR
+    for a server that has completed its response while the request body is still coming.**
+    `drop_stream_ref` calls `maybe_cancel`; on an entry without handles that is not closed the state
+    becomes `Closed(ScheduledLibraryReset(code))` with that code and the queue is left as it is
+    (`pop_frame` then sends the queued response for NO_ERROR / discards the queue otherwise, and the
+    RST_STREAM with exactly that code: `rst_frames_come_from_owing_streams`). -/
+theorem drop_schedules_cancel_or_no_error (s : Streams) (k : Nat) (st : Stream) (hkb : KeysBelow s.store)
+    (hg : s.store.get? k = some st) (hc : st.refCount = 0) (hn : st.state.isClosed = false) :
+    ∀ st', (s.maybeCancel k).store.get? k = some st' →
+      st'.id = st.id ∧ st'.pendingSend = st.pendingSend ∧
+      st'.state = ⟨.closed (.scheduledLibraryReset
+        (if s.counts.isServer && st.state.isSendClosed && st.state.isRecvStreaming then NO_ERROR else CANCEL))⟩ :=
+  maybeCancel_schedules s k st hkb hg hc hn
+
+/-- non-vacuity (client): request written, both handles dropped: CANCEL (8) scheduled -/
+example : ((run {} [.sendRequest false [] false none, .cloneStreamRef 0, .pollComplete 10 {} {} "c",
+      .dropStreamRef 0, .dropStreamRef 0]).store.get? 0).map (·.state.inner) =
+    some (.closed (.scheduledLibraryReset 8)) := by decide
+
+/-- **Every RST_STREAM `pop_frame` hands to the codec was owed by a slab entry, carries that entry's
+    stream id and exactly the owed code, and settles the debt.**  If `pop_frame` returns
+    `RST_STREAM(sid, code)`, then at that moment (a state `s1` reached from `s` inside `pop_frame`) some
+    entry `k` with stream id `sid` had either `RST_STREAM(code)` at the head of its queue (queued by
+    `send_reset` with the caller's code) or an empty queue and `ScheduledLibraryReset(code)`; and in the
+    state `pop_frame` returns, entry `k` (if still in the slab) is closed by an error with no RST_STREAM
+    queued: its `rank` is 2 — by `rst_owed_at_most_once` it never owes one again. -/
+theorem rst_frames_come_from_owing_streams (fuel : Nat) (s : Streams) (maxLen : Nat) (s' : Streams) (sid : Nat) (code : Reason)
+    (hkb : KeysBelow s.store) (h : Streams.popFrame fuel s maxLen = (s', some (.reset sid code))) :
+    ∃ s1 : Store, Evolves SRel RInv s.store s1 ∧ Evolves SRel RInv s1 s'.store ∧
+      ∃ k st1, s1.get? k = some st1 ∧ st1.id = sid ∧
+        ((∃ rest, st1.pendingSend = .reset code :: rest) ∨
+          (st1.pendingSend = [] ∧ st1.state.getScheduledReset = some code)) ∧
+        (RInv st1 → ∀ st', s'.store.get? k = some st' → rank st' = 2) := by
+  obtain ⟨s1, e1, e2, k, st1, h1, h2, h3, h4⟩ := popFrame_emit fuel s maxLen s' _ hkb h
+  exact ⟨s1, e1, e2, k, st1, h1, h2, h3, fun i st' h' => done_rank (h4 i st' h').1 (h4 i st' h').2⟩
+
+/-- non-vacuity: the RST_STREAM(8) of a reset request comes out of `pop_frame` -/
+example : (match (Streams.popFrame 4 (run {} [.sendRequest false [] false none, .pollComplete 10 {} {} "c",
+      .refSendReset 0 8]) 16384).2 with
+    | some (.reset 1 8) => true
+    | _ => false) = true := by decide
+
+set_option maxRecDepth 100000 in
+/-- **Q1 — counterexample to "one RST_STREAM per stream *id*"** (quirk of the real code, reproduced on it,
+    see ConnNOTES.md §4): with the reset-expiration queue full or switched off, a stream whose implicit
+    CANCEL is only scheduled is forgotten by the id map; a frame of the peer already in flight makes
+    `Inner::send_reset` insert a second slab entry with the same id: RST_STREAM(1, CANCEL) and
+    RST_STREAM(1, STREAM_CLOSED) are both written.  The theorems above are per slab entry for this reason. -/
+theorem q1_two_rst_for_one_stream_id_counterexample :
+    (q1State.store.slab.map fun st => (st.key, st.id)) = [(0, 1), (1, 1)] ∧
+    (match (Streams.popFrame 10 q1State 16384).2, (Streams.popFrame 10 (Streams.popFrame 10 q1State 16384).1 16384).2 with
+     | some (.reset 1 8), some (.reset 1 5) => true
+     | _, _ => false) = true :=
+  H2V.Lemmas.ConnResetP.q1_two_rst_for_one_stream_id_counterexample
+
 /-- **RST_STREAM from the peer: the exact code, marked remote** (`State::recv_reset`), for every
     32-bit code (`code : Nat` is the wire value): a stream that is not closed becomes
     `Closed(Error(Reset(id, code, Remote)))` — `ErrorAfterEndStream` when the peer had already ended
@@ -135,6 +232,11 @@ end H2V.Props.C17
 #print axioms H2V.Props.C17.rst_owed_at_most_once
 #print axioms H2V.Props.C17.reset_of_reset_stream_is_noop
 #print axioms H2V.Props.C17.error_cause_is_kept
+#print axioms H2V.Props.C17.send_reset_effect
+#print axioms H2V.Props.C17.reset_after_clean_close_sends_nothing
+#print axioms H2V.Props.C17.drop_schedules_cancel_or_no_error
+#print axioms H2V.Props.C17.rst_frames_come_from_owing_streams
+#print axioms H2V.Props.C17.q1_two_rst_for_one_stream_id_counterexample
 #print axioms H2V.Props.C17.peer_reset_recorded
 #print axioms H2V.Props.C17.peer_error_recorded
 #print axioms H2V.Props.C17.recv_handles_report_error
